@@ -584,12 +584,24 @@ def run(prog, check):
     for f in listers:
         for site in sites[f.key][1]:
             ok = bool(site.emissions)
+            extra = []
             for em, facts, line in site.emissions:
                 if not (unparse(em) == 'TOKVAL' and any(is_name_fact(e, v) for e, v in facts)):
                     ok = False
+                # every NAME token is listed: no further condition on the token or on what was collected so far
+                for e, v in facts:
+                    if is_name_fact(e, v):
+                        continue
+                    mentioned = {x.id for x in ast.walk(e) if isinstance(x, ast.Name)}
+                    if mentioned & ({'TOKVAL', 'TOKTYPE'} | ({site.collector} if isinstance(site.collector, str) else set())):
+                        extra.append(('' if v else 'not ') + unparse(e))
             check.ob('C13.R4', '%s::name-tokens-only' % f.key, ok, '%s:%d' % (f.module.rel, site.node.lineno),
                      'collects the token text under the NAME test only' if ok else 'collects something else than NAME token texts',
                      "list_tokens('x + 2*y(k-1)') must be ['x', 'y', 'k']")
+            check.ob('C13.R4', '%s::every-name-token-listed' % f.key, not extra, '%s:%d' % (f.module.rel, site.node.lineno),
+                     'a NAME token is listed whatever its text and whatever was listed before' if not extra else
+                     'a NAME token is listed only when `%s`: occurrences are dropped, the list is not the name tokens in order of appearance' % ' and '.join(extra),
+                     "list_tokens('a*b + b*a') must be ['a', 'b', 'b', 'a']")
         rets = [r for r in ast.walk(f.node) if isinstance(r, ast.Return) and r.value is not None]
         post = any(isinstance(n, ast.Call) and call_name(n) in ('sort', 'sorted', 'set', 'reverse', 'reversed') for n in ast.walk(f.node))
         collectors = {st.collector for st in sites[f.key][1]}
@@ -641,6 +653,12 @@ def run(prog, check):
                  'term text is renamed by `%s`: anything but the token-level utility on the whole lookup misses names inside '
                  'products / quotients or renames sequentially' % txt[:70],
                  "a simple term 'r*B' whose factor r is to be renamed")
+    tw_ = getattr(term_rename, 'twice', None)
+    check.ob('C13.R5', '%s::renamed-once' % rt.key, tw_ is None, '%s:%d' % (rt.module.rel, tw_[1].line) if tw_ else rt.where,
+             'no path applies the lookup to the term text twice' if tw_ is None else
+             'after the renaming at line %d the renaming at line %d can run as well: the lookup is applied to its own output, so renamings '
+             'that are keys of the lookup are renamed again (a swap is undone)' % (tw_[0].line, tw_[1].line),
+             "an opaque term 'a*b + c/a' with the swap {a: b, b: a}")
     check.ob('C13.R5', '%s::both-term-kinds-renamed' % rt.key, all_paths, rt.where,
              'every normal return of the method has renamed the term text (opaque and simple terms alike)' if all_paths else
              'a kind of term is returned without being renamed', 'an opaque term and a simple term holding the same name')
